@@ -174,6 +174,7 @@ theorem C02_progress (cfg : Cfg) (acts : List Action) (i : Nat) (op : Op)
     · exact Or.inr (blocked hb)
   | resize n c pc old =>
     cases pc
+    · left; refine ⟨.run, ?_⟩; simp only [stepOp, h, stepResize, BEq.rfl, if_true]; exact ⟨_, rfl⟩
     · -- resize.lock / close.lock
       cases hl : s.lock with
       | none =>
